@@ -45,7 +45,16 @@ def nonsimple(s):
 
 
 def gen_id(rng, delim=None, ascii_only=False):
-    kind = rng.choice(["plain", "enc", "uni", "long", "short", "delim", "delim", "odd", "mixed"])
+    kind = rng.choice(["plain", "enc", "uni", "long", "short", "delim", "delim", "odd", "mixed", "boundary"])
+    if kind == "boundary":
+        # ids whose percent-encoded form has a length on either side of the limits the extensions name (100 for the
+        # truncation of 0003's encapsulation directory; 255 as the usual file-name limit)
+        target = rng.choice([99, 100, 100, 101, 254, 255, 256])
+        specials = rng.choice([0, 0, 1, 2, 5])
+        plain = max(1, target - 3 * specials)
+        chars = [rng.choice(PLAIN) for _ in range(plain)] + [rng.choice(":/ %") for _ in range(specials)]
+        rng.shuffle(chars)
+        return "".join(chars)
     alpha = PLAIN
     if kind in ("enc", "mixed"):
         alpha += ENC
